@@ -3,3 +3,6 @@ import G3D.Props.C03
 #print axioms G3D.Props.C03.inter_polygon_polygon_noncoplanar_total
 #print axioms G3D.Props.C03.inter_body_sound
 #print axioms G3D.Props.C03.inter_polygon_polygon_sound
+#print axioms G3D.Props.C03.inter_polygon_polygon_exact
+#print axioms G3D.Props.C03.inter_polygon_polygon_result_valid
+#print axioms G3D.Props.C03.inter_polygon_polygon_total
